@@ -18,9 +18,9 @@ BENIGN = set([
     "traceback.format_exc", "time.time", "sys.exc_info", "str", "repr", "len", "isinstance", "issubclass", "getattr",
     "get_name", "dr.get_name", "stringify_requirements", "dr.stringify_requirements",
     "get_registry_points", "dr.get_registry_points", "get_component_type",
-    "BLACKLISTED_SPECS.append",
+    "BLACKLISTED_SPECS.append", "BLACKLISTED_SPECS.extend",
 ])
-BENIGN_ATTRS = set(["add_exception", "fire_observers", "split", "join", "format", "items", "get", "alarm"])
+BENIGN_ATTRS = set(["add_exception", "fire_observers", "split", "rsplit", "join", "format", "items", "get", "alarm"])
 
 
 def exc_table(repo):
